@@ -17,6 +17,8 @@ type gg struct {
 	oddBudget int
 	curApp    string
 	declared  [][2]string // (application, endpoint) pairs declared so far: calls may target them in any form
+	appNames  []string    // names of all applications of the program, drawn up front: mixins may name any of them (also itself / cyclically)
+	appIndex  int
 }
 
 func (g *gg) n(lo, hi int, label string) int { return rapid.IntRange(lo, hi).Draw(g.t, label) }
@@ -543,6 +545,10 @@ func (g *gg) collector(depth int) {
 
 func (g *gg) application() {
 	hdr := g.appName()
+	if g.appIndex < len(g.appNames) {
+		hdr = g.appNames[g.appIndex]
+	}
+	g.appIndex++
 	g.curApp = hdr
 	if g.p(20, "applong") {
 		hdr += " " + g.qstring()
@@ -574,7 +580,13 @@ func (g *gg) application() {
 		case 5:
 			g.facade(1)
 		case 6:
-			g.emit(1, "-|> "+g.appName())
+			if len(g.appNames) > 0 && g.p(60, "mixindeclared") {
+				// a mixin that resolves: any application of the program, the mixing one included, so
+				// chains, self-mixins and mixin cycles arise
+				g.emit(1, "-|> "+pick(g.t, g.appNames, "mixinname"))
+			} else {
+				g.emit(1, "-|> "+g.appName())
+			}
 		case 7, 8:
 			g.restEndpoint(1, 0)
 		case 9:
@@ -597,7 +609,11 @@ func (g *gg) application() {
 
 func GenGrammarProgram(t *rapid.T) string {
 	g := &gg{t: t, odd: rapid.IntRange(0, 12).Draw(t, "oddness"), oddBudget: rapid.IntRange(0, 3).Draw(t, "oddbudget")}
-	for i := 0; i < g.n(1, 3, "napps"); i++ {
+	napps := g.n(1, 3, "napps")
+	for i := 0; i < napps; i++ {
+		g.appNames = append(g.appNames, g.appName())
+	}
+	for i := 0; i < napps; i++ {
 		g.application()
 		g.lines = append(g.lines, "")
 	}
